@@ -23,7 +23,7 @@ OUTSIDE = ['corrective actions (rescale / boost / subtract legs, un-invert, rese
 ASSUMPTIONS = ['summary mode for Exp/Log of composed rotations (C01 contracts)', 'pinv via defining equations (queries)',
                'a coherent state is characterised by (bottom pose, top pose, plate-fixed coordinates): every publishing path goes through _IKHelper']
 EXPLORER_DEFAULTS = {'quick': dict(prove_timeout_ms=20000, branch_timeout_ms=3000, time_budget_s=600, max_paths=60, max_decisions=200),
-                     'thorough': dict(prove_timeout_ms=60000, branch_timeout_ms=5000, time_budget_s=2400, max_paths=200, max_decisions=300)}
+                     'thorough': dict(prove_timeout_ms=60000, branch_timeout_ms=5000, time_budget_s=1200, max_paths=200, max_decisions=300)}
 TOL = '1e-9'
 
 
